@@ -223,6 +223,28 @@ fn seqs(n: usize, maxlen: usize, atoms: &[V]) -> Vec<Vec<V>> {
     out
 }
 
+/// values in which ONE vector object occurs several times (shared, not cyclic): they print like
+/// the same structure built from distinct objects
+fn shared() -> Vec<V> {
+    let mut out = vec![];
+    let subs: Vec<V> = vec![
+        Value::Vector(ValueReference::new_mutable(vec![Value::Number(Number::Integer(1)), Value::Number(Number::Integer(2))])),
+        Value::Vector(ValueReference::new_immutable(vec![Value::Symbol("a".into())])),
+        Value::Vector(ValueReference::new_mutable(vec![])),
+        Value::Vector(ValueReference::new_mutable(vec![Value::Vector(ValueReference::new_mutable(vec![Value::Character('a')]))])),
+    ];
+    for sv in &subs {
+        let one = Value::Number(Number::Integer(1));
+        out.push(Value::Vector(ValueReference::new_mutable(vec![sv.clone(), sv.clone()])));
+        out.push(Value::Vector(ValueReference::new_immutable(vec![sv.clone(), sv.clone(), sv.clone()])));
+        out.push(list_of(vec![sv.clone(), sv.clone()], nil()));
+        out.push(Value::Vector(ValueReference::new_mutable(vec![sv.clone(), list_of(vec![one.clone(), sv.clone()], nil())])));
+        out.push(list_of(vec![Value::Vector(ValueReference::new_mutable(vec![sv.clone()])), sv.clone()], sv.clone()));
+        out.push(Value::Vector(ValueReference::new_mutable(vec![Value::Vector(ValueReference::new_mutable(vec![sv.clone()])), Value::Vector(ValueReference::new_mutable(vec![sv.clone()]))])));
+    }
+    out
+}
+
 /// single-child nesting chains of the three constructors to the given depth
 fn chains(depth: usize) -> Vec<V> {
     let mut cur: Vec<V> = vec![Value::Number(Number::Integer(7)), Value::Symbol("a".into())];
@@ -337,6 +359,7 @@ pub fn run(ctx: &Ctx) -> i32 {
         tvals.extend(trees(n, &atoms));
     }
     tvals.extend(chains(6));
+    tvals.extend(shared());
     let ntrees = tvals.len() as u64;
     // Value is !Send (Rc): hand the trees out by index from per-thread regenerated copies
     let tacc = par::sweep(
@@ -349,6 +372,7 @@ pub fn run(ctx: &Ctx) -> i32 {
                 t.extend(trees(n, &atoms));
             }
             t.extend(chains(6));
+            t.extend(shared());
             (Interp::must_new(), t)
         },
         |(it, t), acc: &mut Acc, i| {
@@ -392,7 +416,7 @@ pub fn run(ctx: &Ctx) -> i32 {
             tier: ctx.tier_name(),
             seed: ctx.seed,
             exhaustive: true,
-            rule: format!("reals: {}; integers within 2^12 of 0, +-2^15, +-2^24, +-2^31; all reduced ratios n/d with |n|<=40, d<=40 plus i32 boundary ratios; every Unicode scalar value as a character; every identifier of length <= 3 over {:?} that is one identifier token; results of the C09 grid; every value tree with <= {} nodes over 14 atom representatives (proper lists, dotted tails, mutable and literal vectors, empty vectors in tails) and all single-child nesting chains to depth 6; distinct = distinct printed texts (floats: a 1/4099 subsample)", if thorough { "all 2^32 bit patterns (finite ones judged)".to_string() } else { "every exponent x sign x 4096 high mantissa patterns x low bits {0,1,all ones}".to_string() }, ident_alphabet().iter().collect::<String>(), max_nodes),
+            rule: format!("reals: {}; integers within 2^12 of 0, +-2^15, +-2^24, +-2^31; all reduced ratios n/d with |n|<=40, d<=40 plus i32 boundary ratios; every Unicode scalar value as a character; every identifier of length <= 3 over {:?} that is one identifier token; results of the C09 grid; every value tree with <= {} nodes over 14 atom representatives (proper lists, dotted tails, mutable and literal vectors, empty vectors in tails) all single-child nesting chains to depth 6, and values in which one vector object occurs two or three times; distinct = distinct printed texts (floats: a 1/4099 subsample)", if thorough { "all 2^32 bit patterns (finite ones judged)".to_string() } else { "every exponent x sign x 4096 high mantissa patterns x low bits {0,1,all ones}".to_string() }, ident_alphabet().iter().collect::<String>(), max_nodes),
             bounds: json!({"reals": n_float, "integers": n_int, "ratios": n_rat, "characters": n_char, "identifiers": n_id, "trees": ntrees, "tree_max_nodes": max_nodes}),
             assumptions: vec!["atoms take the path display -> real Lexer -> Interpreter::read_literal; non-float atoms, every 64th float and all trees additionally go through eval of the quoted text".into()],
             wall_s: ctx.elapsed(),
